@@ -180,7 +180,7 @@ Suite(m) ==
                        "ht_out2", "ht_create2", "ht_in3", "ht_expire">>
     [] m = "service" -> <<"sv_define", "sv_bind", "sv_call", "sv_respond", "sv_define2", "sv_bind2", "sv_update", "sv_call2",
                           "sv_respond2", "sv_withdraw", "sv_call3", "sv_expire", "sv_disable", "sv_refund">>
-    [] m = "token" -> <<"tk_issue", "tk_mint", "tk_issue2", "tk_mint2", "tk_edit", "tk_burn", "tk_deploy", "tk_toerc20", "tk_transfer">>
+    [] m = "token" -> <<"tk_issue", "tk_mint", "tk_issue2", "tk_mint2", "tk_edit", "tk_burn", "tk_deploy", "tk_toerc20", "tk_transfer", "tk_issue3">>
 Mid(m) == CASE m = "coinswap" -> 2 [] m = "farm" -> 2 [] m = "htlc" -> 3 [] m = "service" -> 4 [] m = "token" -> 2
 
 -----------------------------------------------------------------------------
@@ -191,8 +191,10 @@ AmtClass(c) == IF c = "zero" THEN "zero" ELSE IF c = "max" THEN "max" ELSE "pos"
 MulTrunc(a, r) ==
   IF a = "zero" \/ r \in {"zero", "unset"} THEN "zero"
   ELSE IF r = "neg" THEN "neg"
+  ELSE IF a = "max" /\ r \in {"almost1", "one", "gt1"} THEN "ovf" \* (2^256-1)*10^18 has 316 bits; a LegacyDec result
+                                                                     \* of more than 315 bits panics "Int overflow"
   ELSE IF r = "one" THEN "eq"
-  ELSE IF r = "gt1" THEN (IF a = "max" THEN "ovf" ELSE "gt")
+  ELSE IF r = "gt1" THEN "gt"
   ELSE IF r = "tiny" THEN (IF a = "max" THEN "lt" ELSE "zero")     \* 5000 * 10^-18 truncates to 0
   ELSE "lt"                                                          \* half, almost1, dflt
 (* fee split of coinswap / farm / token:  tax := NewCoin(denom, MulTrunc); burned := fee.Sub(tax) *)
@@ -213,7 +215,8 @@ Pan(why) == R("panic", why)
 (* ---- coinswap (keeper/fees.go DeductPoolCreationFee, keeper/swap.go, keeper/keeper.go) ---- *)
 CsPoolFee(p) ==
   LET ab == SplitAbort(CoinDenomOK(p.pcf), AmtClass(p.pcf), p.tax) IN
-  IF ab = "denom" THEN Pan("coinswap:pcf:" \o p.pcf)
+  IF ab = "ovf" THEN Pan("coinswap:pcf:max")
+  ELSE IF ab = "denom" THEN Pan("coinswap:pcf:baddenom")            \* denom "1bad" or ""
   ELSE IF ab # "none" THEN Pan("coinswap:tax:" \o p.tax)
   ELSE IF p.pcf = "max" THEN Rej ELSE OkR
 CsOp(p, op, done) ==
@@ -230,7 +233,8 @@ FmCreate(p, cats) ==
   IF cats > MaxCatRep(p.maxcat) THEN Rej
   ELSE LET ab == SplitAbort(TRUE, AmtClass(p.fee), p.tax) IN
        IF ab = "neg" THEN Pan("farm:taxrate:neg")
-       ELSE IF ab \in {"gt1", "ovf"} THEN Pan("farm:taxrate:gt1")
+       ELSE IF ab = "gt1" \/ (ab = "ovf" /\ p.tax = "gt1") THEN Pan("farm:taxrate:gt1")
+       ELSE IF ab = "ovf" THEN Pan("farm:fee:max")
        ELSE IF p.fee = "max" THEN Rej ELSE OkR
 FmOp(p, op, done) ==
   LET poolA == "fm_create" \in done
@@ -243,17 +247,24 @@ FmOp(p, op, done) ==
     [] op = "fm_expire" -> OkR
 
 (* ---- token (keeper/fees.go) ---- *)
+(* symbols of more than three letters pay base fee / factor (factor > 4): the
+   LegacyDec products stay below the overflow bound even for the largest fee *)
+TkAmt(p) == IF p.fee = "zero" THEN "zero" ELSE "pos"
 TkIssue(p) ==
-  IF ~CoinDenomOK(p.fee) THEN Pan("token:issuefee:" \o p.fee)       \* calcTokenIssueFee: sdk.NewCoin(denom, ...)
-  ELSE IF SplitAbort(TRUE, AmtClass(p.fee), p.tax) # "none" THEN Pan("token:taxrate:" \o p.tax)
+  IF ~CoinDenomOK(p.fee) THEN Pan("token:issuefee:baddenom")        \* calcTokenIssueFee: sdk.NewCoin(denom, ...)
+  ELSE IF SplitAbort(TRUE, TkAmt(p), p.tax) # "none" THEN Pan("token:taxrate:" \o p.tax)
   ELSE IF p.fee = "max" THEN Rej ELSE OkR
 TkMint(p) ==
-  IF ~CoinDenomOK(p.fee) THEN Pan("token:issuefee:" \o p.fee)
-  ELSE IF SplitAbort(TRUE, AmtClass(p.fee), p.tax) # "none" THEN Pan("token:taxrate:" \o p.tax)
-  ELSE IF p.fee = "max" /\ MulTrunc("max", p.ratio) # "zero" THEN Rej ELSE OkR
+  IF ~CoinDenomOK(p.fee) THEN Pan("token:issuefee:baddenom")
+  ELSE IF SplitAbort(TRUE, TkAmt(p), p.tax) # "none" THEN Pan("token:taxrate:" \o p.tax)
+  ELSE IF p.fee = "max" /\ p.ratio # "zero" THEN Rej ELSE OkR
+(* a three-letter symbol pays the undivided base fee: NewDecFromInt(fee).Quo(1.00) *)
+TkIssue3(p) ==
+  IF CoinDenomOK(p.fee) /\ p.fee = "max" THEN Pan("token:issuefee:max") ELSE TkIssue(p)
 TkOp(p, op, done) ==
   LET kitty == "tk_issue" \in done IN
   CASE op \in {"tk_issue", "tk_issue2"} -> TkIssue(p)
+    [] op = "tk_issue3" -> TkIssue3(p)
     [] op \in {"tk_mint", "tk_mint2"} -> IF kitty THEN TkMint(p) ELSE Rej
     [] op \in {"tk_edit", "tk_burn", "tk_transfer"} -> IF kitty THEN OkR ELSE Rej
     [] op = "tk_deploy" -> IF ~p.erc20 \/ p.beacon # "hex" THEN Rej ELSE IF kitty THEN OkR ELSE Unk
@@ -356,7 +367,7 @@ GhostStep(g, s, e, t) ==
   [done |-> IF e.name = "Op" /\ e.ok THEN g.done \cup {e.op} ELSE g.done,
    pc |-> IF e.name = "Op" THEN g.pc + 1 ELSE g.pc,
    nupd |-> IF t.params # s.params THEN g.nupd + 1 ELSE g.nupd,
-   events |-> g.events + 1,
+   events |-> 1,                                    \* 0 = nothing happened yet
    dead |-> g.dead \/ e.halt \/ (e.name = "GenesisParams" /\ e.via = "initchain" /\ ~e.ok),
    todo |-> IF g.todo = <<>> THEN <<>> ELSE Tail(g.todo)]      \* generator script (empty elsewhere)
 
@@ -384,8 +395,11 @@ C16_NoAbort(e) == e.name = "Op" => ~e.panic /\ ~e.halt
 
 (* aborts the specification itself predicts from accepted parameters: the
    known findings (findings/params.md); masked in the MC configs only *)
-KnownWhys == {"farm:taxrate:gt1", "farm:taxrate:neg", "coinswap:pcf:baddenom", "coinswap:pcf:nodenom",
-              "token:issuefee:baddenom", "token:issuefee:nodenom", "htlc:fixedfee:max"}
+KnownWhys == {"farm:taxrate:gt1", "farm:taxrate:neg",          \* F14
+              "coinswap:pcf:baddenom",                          \* F18
+              "token:issuefee:baddenom",                        \* F19
+              "htlc:fixedfee:max",                              \* F21
+              "coinswap:pcf:max", "farm:fee:max", "token:issuefee:max"}   \* F22
 
 -----------------------------------------------------------------------------
 (* Parameter spaces: all records that differ from the baseline in at most k fields *)
@@ -427,6 +441,15 @@ SpaceHtlc == HtlcSpace(KHtlc)
 Space(m) ==
   CASE m = "coinswap" -> SpaceCoinswap [] m = "farm" -> SpaceFarm [] m = "token" -> SpaceToken
     [] m = "service" -> SpaceService [] m = "htlc" -> SpaceHtlc
+(* the baseline and every single-field deviation *)
+StarCoinswap == SpaceOf(DomCoinswap, BaseParams.coinswap, 1)
+StarFarm == SpaceOf(DomFarm, BaseParams.farm, 1)
+StarToken == SpaceOf(DomToken, BaseParams.token, 1)
+StarService == SpaceOf(DomService, BaseParams.service, 1)
+StarHtlc == HtlcSpace(1)
+Star(m) ==
+  CASE m = "coinswap" -> StarCoinswap [] m = "farm" -> StarFarm [] m = "token" -> StarToken
+    [] m = "service" -> StarService [] m = "htlc" -> StarHtlc
 
 -----------------------------------------------------------------------------
 (* Transition system *)
@@ -444,24 +467,28 @@ Step(e) ==
 
 CanUpdate == ~gh.dead /\ gh.nupd = 0 /\ gh.pc \in {0, Mid(st.mod)}
 
-Update(sender, p) == CanUpdate /\ Step(EvUpdate(st.mod, sender, p))
-GenesisProbe(p) == CanUpdate /\ gh.pc = 0 /\ Step(EvGenesis(st.mod, "module", p))
+Update(sender, p) == Step(EvUpdate(st.mod, sender, p))
+GenesisProbe(p) == Step(EvGenesis(st.mod, "module", p))
 (* a chain whose genesis carries p: only as the first event; the state before
    it is the default chain *)
 GenesisChain(p) ==
-  /\ gh.events = 0
-  /\ LET s0 == [st EXCEPT !.params = DefaultParams]
-         e == EvGenesis(st.mod, "initchain", p)
-         r == Apply(s0, gh, e)
-         e2 == [e EXCEPT !.ok = (r.okc = "ok"), !.why = r.why]
-     IN /\ st' = r.st /\ ev' = e2 /\ gh' = GhostStep(gh, s0, e2, r.st)
-        /\ hist' = IF RecordHist THEN Append(hist, e2) ELSE hist
+  LET s0 == [st EXCEPT !.params = DefaultParams]
+      e == EvGenesis(st.mod, "initchain", p)
+      r == Apply(s0, gh, e)
+      e2 == [e EXCEPT !.ok = (r.okc = "ok"), !.why = r.why]
+  IN /\ st' = r.st /\ ev' = e2 /\ gh' = GhostStep(gh, s0, e2, r.st)
+     /\ hist' = IF RecordHist THEN Append(hist, e2) ELSE hist
 DoSuite ==
   /\ ~gh.dead /\ gh.pc < Len(Suite(st.mod))
   /\ Step(EvOp(st.mod, Suite(st.mod)[gh.pc + 1]))
 
+(* guards first: the parameter space is enumerated only where an update is possible *)
 Next ==
-  \/ \E p \in Space(st.mod) : (\E sender \in Senders : Update(sender, p)) \/ GenesisProbe(p) \/ GenesisChain(p)
+  \/ /\ CanUpdate
+     /\ \E p \in Space(st.mod) :
+          \/ \E sender \in Senders : Update(sender, p)
+          \/ (gh.pc = 0 /\ GenesisProbe(p))
+          \/ (gh.events = 0 /\ GenesisChain(p))
   \/ DoSuite
 
 Spec == Init /\ [][Next]_vars
@@ -490,7 +517,7 @@ Script(m, p, pos, who) ==
 Scripts(m) ==
   {Script(m, p, 0, "stranger") : p \in Space(m)}
   \cup {Script(m, p, 1, "forger") : p \in {q \in Space(m) : ValidateM(m, q) = "ok"}}
-  \cup {<<EvGenesis(m, "initchain", p), EvUpdate(m, "stranger", p)>> : p \in Space(m)}
+  \cup {<<EvGenesis(m, "initchain", p), EvUpdate(m, "stranger", p)>> : p \in Star(m)}
 
 GenInit == \E m \in GenMods : \E sc \in Scripts(m) :
   /\ st = Init0(m) /\ ev = NoEv /\ gh = [GhostInit EXCEPT !.todo = sc] /\ hist = <<>>
